@@ -243,5 +243,4 @@ def expr(c):
 
 
 K.FAMILIES["wtw"] = (gen_case, run_impl, expr)
-if "Wtw" not in K.HEADER:
-    K.HEADER = K.HEADER.replace(" Run.", " Wtw Run.")
+K.add_imports("Distrib", "Kinds", "Wtw")
